@@ -349,7 +349,7 @@ func (c *curveT) hdrLen(f string) int {
 
 func (e *env) eciesSection(rng *hlib.Rng) {
 	o := e.o
-	n := hlib.N(15, 150)
+	n := hlib.N(45, 300)
 	for cI := 0; cI < n; cI++ {
 		o.Case()
 		ci, vi, mi := cI%3, (cI/3)%3, (cI/9+cI)%len(dems)
